@@ -1,7 +1,7 @@
 (* Lsm/CompactKeySpec.v — what readers observe of one key before and after a compaction, and the
    theorem statements about compact_key. *)
 From Coq Require Import List NArith Bool Sorted.
-From SKV Require Import Lsm.CompactKey.
+From SKV Require Import Lsm.CompactKey Lsm.CompactKeyOld.
 Import ListNotations.
 Local Open Scope N_scope.
 
@@ -82,3 +82,82 @@ Definition compact_key_history_retention_stmt : Prop :=
     let out := history_at (compact_key bottom true retention now snaps vs) s in
     (forall v, In v out -> In v (history_at vs s)) /\
     (forall v, In v (history_at vs s) -> ~ In v out -> 0 < retention /\ retention < now - vts v).
+
+(* ---- barriers and the levels below the compaction (C10) -------------------------------- *)
+(* A compaction above the bottom level sees only the versions [vs] of the key that sit in its
+   input tables; older versions of the same key may sit in DEEPER tables that take no part in it.
+   [deep] stands for those: an arbitrary version list lying entirely below [vs]. *)
+Definition is_barrier (v : ver) : bool := is_hard (vkind v) || is_rep (vkind v).
+
+(* what the versions of the compaction do to every older version that is not in the list: a
+   reader at horizon s has them erased iff some version it sees is a hard delete or a replace *)
+Definition erases_deeper (vs : list ver) (s : N) : bool :=
+  existsb (fun v => (vseq v <=? s) && is_barrier v) vs.
+(* the barrier that does it: the newest one the reader sees *)
+Definition newest_barrier (vs : list ver) (s : N) : option ver :=
+  find (fun v => (vseq v <=? s) && is_barrier v) vs.
+
+(* [deep] lies below [vs]: together they are one strictly descending version list of positive
+   sequence numbers *)
+Definition lies_below (vs deep : list ver) : Prop :=
+  desc (vs ++ deep) /\ (forall v, In v (vs ++ deep) -> 0 < vseq v).
+(* the history a reader sees over this level and everything deeper *)
+Definition history_deeper (vs deep : list ver) (s : N) : list ver := history_at (vs ++ deep) s.
+
+(* erases_deeper means what it says: when it holds nothing of [deep] is in the history, when it
+   does not the history of [deep] is appended unchanged *)
+Definition erases_deeper_history_stmt : Prop :=
+  forall (vs deep : list ver) (s : N),
+    history_deeper vs deep s =
+    if erases_deeper vs s then history_at vs s else history_at vs s ++ history_at deep s.
+
+(* (a) above the bottom level (versioning, unlimited retention) a compaction never loses the
+   barrier of a reader that can exist *)
+Definition compact_key_barrier_kept_stmt : Prop :=
+  forall (now : N) (snaps : list N) (vs : list ver) (s : N),
+    desc vs -> asc snaps -> (forall v, In v vs -> 0 < vseq v) ->
+    (In s snaps \/ top vs <= s) ->
+    erases_deeper (compact_key false true 0 now snaps vs) s = erases_deeper vs s.
+
+(* (b) ... and the history such a reader sees over this level AND everything deeper is unchanged:
+   no retained version is lost, and no version in a deeper table that a hard delete or replace of
+   this level erased comes back *)
+Definition compact_key_history_deeper_stmt : Prop :=
+  forall (now : N) (snaps : list N) (vs deep : list ver) (s : N),
+    lies_below vs deep -> asc snaps ->
+    (In s snaps \/ top vs <= s) ->
+    history_deeper (compact_key false true 0 now snaps vs) deep s = history_deeper vs deep s.
+
+(* the same for ANY list appended below (the proof never looks at [deep]); implies (b) *)
+Definition compact_key_history_deeper_any_stmt : Prop :=
+  forall (now : N) (snaps : list N) (vs deep : list ver) (s : N),
+    desc vs -> asc snaps ->
+    (In s snaps \/ top vs <= s) ->
+    history_at (compact_key false true 0 now snaps vs ++ deep) s = history_at (vs ++ deep) s.
+
+(* finite retention: nothing erased comes back over this level and everything deeper, PROVIDED the
+   newest barrier the reader sees is still inside the retention window.  The proviso cannot be
+   dropped: an older hard delete outside the window is `superseded` and dropped, and the deeper
+   versions it erased reappear (compact_key_retention_barrier_lost_stmt). *)
+Definition compact_key_history_deeper_retention_stmt : Prop :=
+  forall (retention now : N) (snaps : list N) (vs deep : list ver) (s : N),
+    lies_below vs deep -> asc snaps ->
+    (In s snaps \/ top vs <= s) ->
+    (forall b, newest_barrier vs s = Some b -> ~ (0 < retention /\ retention < now - vts b)) ->
+    forall v, In v (history_deeper (compact_key false true retention now snaps vs) deep s) ->
+              In v (history_deeper vs deep s).
+
+(* witness that the proviso is needed (finite retention, barrier outside the window) *)
+Definition compact_key_retention_barrier_lost_stmt : Prop :=
+  exists (retention now : N) (snaps : list N) (vs deep : list ver) (s : N) (v : ver),
+    lies_below vs deep /\ asc snaps /\ (In s snaps \/ top vs <= s) /\
+    In v (history_deeper (compact_key false true retention now snaps vs) deep s) /\
+    ~ In v (history_deeper vs deep s).
+
+(* (c) regression record: the decision before the repair (CompactKeyOld.v: an older hard delete is
+   always stale) violates (a) and (b) *)
+Definition compact_key_old_history_deeper_fails_stmt : Prop :=
+  exists (now : N) (snaps : list N) (vs deep : list ver) (s : N),
+    lies_below vs deep /\ asc snaps /\ (In s snaps \/ top vs <= s) /\
+    erases_deeper (compact_key_old false true 0 now snaps vs) s <> erases_deeper vs s /\
+    history_deeper (compact_key_old false true 0 now snaps vs) deep s <> history_deeper vs deep s.
